@@ -1030,3 +1030,143 @@ def encoder_sinks(R, ctx, rid):
              "encoder is handed to %s, each on every path" % [n.rsplit("::", 2)[-2] + "::" + n.rsplit("::", 1)[-1] for n in names] if ok else
              "encoder is handed to %s (expected %s, each unconditional and in this order)" % (names, want),
              got[0].loc() if got else None)
+
+
+_W = "BlockIter::new(AsRef::as_ref(self))"
+_POS = "text::find_position(AsRef::as_ref(self), txn, index)"
+# (function, callee regex, {argument index: canonical value | ("has", fragment)}, guard callee that must be True at the call or None)
+API_DELEGATIONS = [
+    ("yrs::types::array::Array::get", r"BlockIter::try_forward$", {2: "index"}, None),
+    ("yrs::types::array::Array::get", r"BlockIter::read_value$", {}, "try_forward"),
+    ("yrs::types::array::Array::insert", r"BlockIter::try_forward$", {2: "index"}, None),
+    ("yrs::types::array::Array::insert", r"BlockIter::insert_contents$", {2: "value"}, "try_forward"),
+    ("yrs::types::array::Array::insert_range", r"Array::insert$", {0: "self", 2: "index", 3: "RangePrelim::new(values)"}, None),
+    ("yrs::types::array::Array::push_back", r"Array::insert$", {0: "self", 2: "Array::len(self, txn)", 3: "value"}, None),
+    ("yrs::types::array::Array::push_front", r"Array::insert$", {0: "self", 2: "0", 3: "content"}, None),
+    ("yrs::types::array::Array::remove", r"Array::remove_range$", {0: "self", 2: "index", 3: "1"}, None),
+    ("yrs::types::array::Array::remove_range", r"BlockIter::try_forward$", {2: "index"}, None),
+    ("yrs::types::array::Array::remove_range", r"BlockIter::delete$", {2: "len"}, "try_forward"),
+    ("yrs::types::map::Map::get", r"Branch::get$", {0: "AsRef::as_ref(self)", 2: "key"}, None),
+    ("yrs::types::map::Map::remove", r"Branch::remove$", {0: "AsRef::as_ref(self)", 2: "key"}, None),
+    ("yrs::types::map::Map::insert", r"TransactionMut::create_item$",
+     {1: ("has", "Option::cloned(HashMap::get(AsRef::as_ref(self).map, Into::into(key)))"), 2: "value", 3: "Some{Into::into(key)}"}, None),
+    ("yrs::types::xml::Xml::insert_attribute", r"TransactionMut::create_item$",
+     {1: ("has", "Option::cloned(HashMap::get(AsRef::as_ref(self).map, Into::into(key)))"), 2: "value", 3: "Some{Into::into(key)}"}, None),
+    ("yrs::types::xml::Xml::remove_attribute", r"Branch::remove$", {0: "AsRef::as_ref(self)", 2: "AsRef::as_ref(attr_name)"}, None),
+    ("yrs::types::xml::Xml::get_attribute", r"Branch::get$", {0: "AsRef::as_ref(self)", 2: "attr_name"}, None),
+    ("yrs::types::text::Text::format", r"text::find_position$", {0: "AsRef::as_ref(self)", 2: "index"}, None),
+    ("yrs::types::text::Text::format", r"text::insert_format$", {0: "AsRef::as_ref(self)", 2: _POS, 3: "len", 4: "attributes"}, None),
+    ("yrs::types::text::Text::insert", r"text::find_position$", {0: "AsRef::as_ref(self)", 2: "index"}, None),
+    ("yrs::types::text::Text::insert", r"TransactionMut::create_item$", {1: _POS, 2: "PrelimString{chunk}", 3: "None{}"}, None),
+    ("yrs::types::text::Text::insert_embed", r"text::find_position$", {0: "AsRef::as_ref(self)", 2: "index"}, None),
+    ("yrs::types::text::Text::insert_embed", r"TransactionMut::create_item$", {1: _POS, 2: "Into::into(content)", 3: "None{}"}, None),
+    ("yrs::types::text::Text::insert_embed_with_attributes", r"text::find_position$", {0: "AsRef::as_ref(self)", 2: "index"}, None),
+    ("yrs::types::text::Text::insert_embed_with_attributes", r"text::insert$", {0: "AsRef::as_ref(self)", 2: _POS, 3: "Into::into(embed)", 4: "attributes"}, None),
+    ("yrs::types::text::Text::insert_with_attributes", r"text::find_position$", {0: "AsRef::as_ref(self)", 2: "index"}, None),
+    ("yrs::types::text::Text::insert_with_attributes", r"text::insert$", {0: "AsRef::as_ref(self)", 2: _POS, 3: "PrelimString{chunk}", 4: "attributes"}, None),
+    ("yrs::types::text::Text::remove_range", r"text::find_position$", {0: "AsRef::as_ref(self)", 2: "index"}, None),
+    ("yrs::types::text::Text::remove_range", r"text::remove$", {1: _POS, 2: "len"}, None),
+    ("yrs::types::xml::XmlFragment::insert", r"Branch::insert_at$", {0: "AsRef::as_ref(self)", 2: "index", 3: "xml_node"}, None),
+    ("yrs::types::xml::XmlFragment::push_back", r"XmlFragment::insert$", {0: "self", 2: "XmlFragment::len(self, txn)", 3: "xml_node"}, None),
+    ("yrs::types::xml::XmlFragment::push_front", r"XmlFragment::insert$", {0: "self", 2: "0", 3: "xml_node"}, None),
+    ("yrs::types::xml::XmlFragment::remove", r"XmlFragment::remove_range$", {0: "self", 2: "index", 3: "1"}, None),
+    ("yrs::types::xml::XmlFragment::remove_range", r"BlockIter::try_forward$", {2: "index"}, None),
+    ("yrs::types::xml::XmlFragment::remove_range", r"BlockIter::delete$", {2: "len"}, "try_forward"),
+    ("yrs::types::xml::XmlFragment::get", r"Branch::get_at$", {0: "AsRef::as_ref(self)", 1: "index"}, None),
+    ("yrs::types::xml::XmlFragment::len", r"Branch::len$", {0: "AsRef::as_ref(self)"}, None),
+    ("yrs::types::array::Array::len", r"Branch::len$", {0: "AsRef::as_ref(self)"}, None),
+    ("yrs::branch::Branch::insert_at", r"Branch::index_to_ptr$", {1: "self.start", 2: "index"}, None),
+]
+
+
+def api_delegations(R, ctx, rid):
+    """R-PROV the public methods of the shared types hand their own arguments on."""
+    from .accessors import _canon
+    Y = ctx.yrs
+    R.rule(rid, "R-PROV the methods of Array / Map / Text / XmlFragment / XML attributes are thin: each reaches its worker (BlockIter "
+                "walk, find_position, create_item, Branch::get / remove / insert_at, or a sibling method) exactly once, with the "
+                "caller's own index / length / key / value in the worker's slots — values rebuilt from MIR and rendered canonically, "
+                "so named temporaries do not matter; push_back is insert at len(), push_front insert at 0, remove(i) is "
+                "remove_range(i, 1); the positional effect (insert_contents / delete / read_value) runs only where try_forward "
+                "answered true. An index shifted by one, the wrong length, the other parameter in a slot are all value changes here")
+    n = 0
+    for path, callee, want, guard in API_DELEGATIONS:
+        fn = Y.fn(path)
+        v = FnView(fn)
+        css = fn.calls_to("re:" + callee)
+        site = callee.rstrip("$").rsplit("::", 1)[-1]
+        if len(css) != 1:
+            R.ob(rid, fn, site, False, "%d calls of %s (expected one)" % (len(css), callee))
+            continue
+        cs = css[0]
+        n += 1
+        bad = []
+        for idx, exp in sorted(want.items()):
+            got = _canon(v.arg(cs, idx, 12)) if idx < len(cs.args) else "<absent>"
+            if isinstance(exp, tuple):
+                if exp[1] not in got:
+                    bad.append("argument %d = %s lacks %s" % (idx, got, exp[1]))
+            elif got != exp:
+                bad.append("argument %d = %s — expected %s" % (idx, got, exp))
+        if guard:
+            okg = v.has_guard(cs.bb, lambda l: isinstance(l.term, tuple) and l.term[0] == "call" and l.term[1].endswith(guard) and l.polarity is True)
+            if not okg:
+                bad.append("not under %s() == true" % guard)
+        R.ob(rid, fn, site, not bad, "hands on its own arguments" if not bad else "; ".join(bad), cs.loc())
+    R.floor(rid, "delegations checked", n, 30)
+
+
+def map_try_update(R, ctx, rid):
+    """Map::try_update writes unless the live current value is the same plain value."""
+    from ylib.formula import Formulas, truth_check, fshow, atoms_of
+    Y = ctx.yrs
+    R.rule(rid, "R-GUARD Map::try_update: the write (Map::insert with the caller's key and value) is skipped exactly when the key has an "
+                "entry, that entry is live, holds a plain value, and its last element equals the new value — truth table over the path "
+                "formula of the insert; a tombstoned or nested-type entry is always overwritten (a skipped write after a remove leaves "
+                "the key absent)")
+    fn = Y.fn("yrs::types::map::Map::try_update")
+    v = FnView(fn)
+    ins = fn.calls_to("yrs::types::map::Map::insert")
+    R.floor(rid, "Map::insert in try_update", len(ins), 1)
+    if len(ins) != 1:
+        R.ob(rid, fn, "single-write", False, "%d insert calls" % len(ins))
+        return
+    fm = Formulas(fn, simp_deep)
+    f = fm.reach(ins[0].bb)
+
+    def classify(k, t):
+        if not isinstance(t, tuple):
+            return None
+        t = simp_deep(t)
+        if t[0] == "call":
+            nm = F.strip_generics(t[1])
+            if nm.endswith("HashMap::get") and k.endswith(" is Some"):
+                return "FOUND"
+            if nm.endswith("Item::is_deleted") or nm.endswith("ItemPtr::is_deleted"):
+                return "DELETED"
+            if re.search(r"::last$", nm) and k.endswith(" is Some"):
+                return "HAS_LAST"
+            if re.search(r"PartialEq.*::eq$", nm):
+                return "SAME"
+            if re.search(r"PartialEq.*::ne$", nm):
+                return "!SAME"
+        if t[0] == "field" and t[1].endswith("Item.content") and k.endswith(" is Any"):
+            return "PLAIN"
+        return None
+    names = {classify(k, t) for k, t in atoms_of(f).items()}
+    free = [k for k, t in atoms_of(f).items() if classify(k, t) is None]
+
+    def required(e):
+        need = ("FOUND", "DELETED", "PLAIN", "HAS_LAST", "SAME")
+        if any(n not in e for n in need):
+            return None
+        skip = e["FOUND"] and not e["DELETED"] and e["PLAIN"] and e["HAS_LAST"] and e["SAME"]
+        return not skip
+    ok, cex, keys = truth_check(f, classify, required, max_atoms=10)
+    have = {"FOUND", "DELETED", "PLAIN", "HAS_LAST", "SAME"} <= {n.lstrip("!") for n in names if n}
+    R.ob(rid, fn, "write-decision", ok and have and not free,
+         "insert is skipped exactly for a live, plain, equal current value" if ok and have and not free else
+         "the write decision differs: %s" % (cex if have and not free else "atoms %s, unrecognised %s" % (sorted(n for n in names if n), free)), ins[0].loc())
+    from .accessors import _canon
+    a = [_canon(v.arg(ins[0], i, 10)) for i in range(len(ins[0].args))]
+    R.ob(rid, fn, "write-args", a[0] == "self" and a[2] == "Into::into(key)" and a[3] == "Into::into(value)", "insert(%s)" % "; ".join(a), ins[0].loc())
